@@ -114,11 +114,39 @@ theorem SvStep.closeCNow {n m : N} (h : SvStep n m) (l : Nat) : SvStep n (m.clos
     · exact h.setLink _ _
   · exact h
 
+theorem SvStep.cnStop {n m : N} (h : SvStep n m) (w : Who) : SvStep n (cnStop m w) := by
+  unfold Tbox.C06.Net.cnStop; simp only
+  split
+  · split
+    · exact (h.closeCNow _).setCn _ _
+    · exact h.setCn _ _
+  · split
+    · exact SvStep.setCn (m := { m with uaf := true }) (h.same rfl rfl) _ _
+    · exact h.setCn _ _
+  · exact h
+
+theorem SvStep.knCleanup {n m : N} (h : SvStep n m) : SvStep n (knCleanup m) := by
+  unfold Tbox.C06.Net.knCleanup
+  split
+  · exact h
+  · exact (h.cnStop _).trans (SvStep.of_eq rfl rfl rfl)
+
 theorem SvStep.cnFail {n m : N} (h : SvStep n m) (cfg : Cfg) (w : Who) : SvStep n (cnFail cfg m w).1 := by
   unfold Tbox.C06.Net.cnFail; simp only
   split
   · exact h.setCn _ _
-  · exact (h.setCn _ _).same rfl rfl
+  · have ha : SvStep n ({ (m.setCn w { ({ m.cn w with fails := (m.cn w).fails + 1, pend := none } : Cn) with
+        st := .delay, deadline := some (m.now + 1000 * ({ m.cn w with fails := (m.cn w).fails + 1, pend := none } : Cn).delayOf ((m.cn w).fails + 1)), seq := m.tick }) with tick := m.tick + 1 } : N) :=
+      (h.setCn _ _).same rfl rfl
+    split
+    · split
+      · split
+        · split
+          · exact ha.knCleanup
+          · exact (ha.cnStop _).ev _ (fun _ _ hh => by cases hh)
+        · exact ha.same rfl rfl
+      · exact ha
+    · exact ha
 
 theorem SvStep.cnEnter {n m : N} (h : SvStep n m) (cfg : Cfg) (w : Who) : SvStep n (cnEnter cfg m w).1 := by
   unfold Tbox.C06.Net.cnEnter
@@ -135,17 +163,6 @@ theorem SvStep.cnEnter {n m : N} (h : SvStep n m) (cfg : Cfg) (w : Who) : SvStep
         refine SvStep.push (SvStep.push (SvStep.setCn ?_ _ _) _) _
         exact h.same rfl rfl
       · exact h.cnFail cfg w
-
-theorem SvStep.cnStop {n m : N} (h : SvStep n m) (w : Who) : SvStep n (cnStop m w) := by
-  unfold Tbox.C06.Net.cnStop; simp only
-  split
-  · split
-    · exact (h.closeCNow _).setCn _ _
-    · exact h.setCn _ _
-  · split
-    · exact SvStep.setCn (m := { m with uaf := true }) (h.same rfl rfl) _ _
-    · exact h.setCn _ _
-  · exact h
 
 theorem SvStep.svSend {n m : N} (h : SvStep n m) (t : Nat) (d : List Byte) : SvStep n (svSend m t d).1 := by
   unfold Tbox.C06.Net.svSend
@@ -238,10 +255,10 @@ theorem SvStep.clShut {n m : N} (h : SvStep n m) (i : Nat) : SvStep n (clShut m 
   · exact h
 
 theorem SvStep.foldCloseSNow {n : N} (l : List Nat) (k : N) (hk : SvStep n k) :
-    SvStep n (l.foldl (fun n l => n.closeSNow l) k) := by
+    SvStep n (l.foldl (fun n l => (n.closeSNow l).markRst l) k) := by
   induction l generalizing k with
   | nil => exact hk
-  | cons e l ih => exact ih _ (hk.closeSNow _)
+  | cons e l ih => exact ih _ ((hk.closeSNow _).setLink _ _)
 
 theorem SvStep.svCleanup {n m : N} (h : SvStep n m) (cfg : Cfg) : SvStep n (svCleanup cfg m) := by
   unfold Tbox.C06.Net.svCleanup
@@ -254,12 +271,6 @@ theorem SvStep.clCleanup {n m : N} (h : SvStep n m) (i : Nat) : SvStep n (clClea
   split
   · exact h
   · exact ((h.clStop i).cnStop _).setClient _ _
-
-theorem SvStep.knCleanup {n m : N} (h : SvStep n m) : SvStep n (knCleanup m) := by
-  unfold Tbox.C06.Net.knCleanup
-  split
-  · exact h
-  · exact (h.cnStop _).trans (SvStep.of_eq rfl rfl rfl)
 
 theorem SvStep.runAct {n m : N} (h : SvStep n m) (cfg : Cfg) (x : Ctx) (a : Act) : SvStep n (runAct cfg x m a) := by
   cases a with
@@ -675,6 +686,22 @@ theorem SvStep.fireTimer {n m : N} (h : SvStep n m) (cfg : Cfg) (w : Who) : SvSt
     | raw => exact (h.setCn _ _).cnEnter cfg _
   · exact h
 
+theorem SvStep.fireAll {n : N} (cfg : Cfg) (fuel : Nat) : ∀ {m : N}, SvStep n m → SvStep n (fireAll cfg fuel m) := by
+  have key : ∀ (l : List (Who × Nat × Nat)) (k : N), SvStep n k →
+      SvStep n (l.foldl (fun n t => Tbox.C06.Net.fireTimer cfg n t.1) k) := by
+    intro l
+    induction l with
+    | nil => intro k hk; exact hk
+    | cons e l ih => intro k hk; exact ih _ (hk.fireTimer cfg _)
+  induction fuel with
+  | zero => intro m h; exact h
+  | succ f ih =>
+      intro m h
+      unfold Tbox.C06.Net.fireAll
+      split
+      · exact h
+      · exact ih (key _ _ h)
+
 theorem step_svStep (cfg : Cfg) (n : N) (op : Op) : SvStep n (step cfg n op).1 := by
   cases op with
   | svInit => simp only [step]; split; exact SvStep.refl n; split <;> exact SvStep.of_eq rfl rfl rfl
@@ -722,13 +749,9 @@ theorem step_svStep (cfg : Cfg) (n : N) (op : Op) : SvStep n (step cfg n op).1 :
   | rawHold b => simp only [step]; split <;> exact SvStep.of_eq rfl rfl rfl
   | adv ms =>
       simp only [step]
-      have key : ∀ (l : List (Who × Nat × Nat)) (k : N), SvStep n k →
-          SvStep n (l.foldl (fun n t => fireTimer cfg n t.1) k) := by
-        intro l
-        induction l with
-        | nil => intro k hk; exact hk
-        | cons e l ih => intro k hk; exact ih _ (hk.fireTimer cfg _)
-      exact key _ _ (SvStep.of_eq rfl rfl rfl)
+      exact SvStep.fireAll cfg _ (SvStep.of_eq rfl rfl rfl)
+  | knDelay tbl => exact SvStep.of_eq rfl rfl rfl
+  | knDelayAct tbl k cl => exact SvStep.of_eq rfl rfl rfl
   | budget k => exact SvStep.of_eq rfl rfl rfl
   | fault kind k =>
       simp only [step]
@@ -746,7 +769,10 @@ theorem drain_svI (cfg : Cfg) (fuel : Nat) (n : N) (h : SvI none n) : SvI none (
         simp only
         split
         · exact h'
-        · exact ih _ (h'.step (SvStep.of_eq rfl rfl rfl))
+        · have h1 := SvStep.fireAll (n := n.endPass) cfg timerFuel
+            (m := { n.endPass with qn := [], qlate := [], lastFds := (passOrder n.endPass (n.endPass.qn ++ n.endPass.qlate)).1 })
+            (SvStep.of_eq rfl rfl rfl)
+          exact ih _ (h'.step (h1.same rfl rfl))
 
 theorem stepQ_svI (cfg : Cfg) (n : N) (op : Op) (h : SvI none n) : SvI none (stepQ cfg n op) := by
   unfold stepQ
